@@ -303,6 +303,53 @@ func ruleTypeStr(c *Ctx) {
 			}
 		}
 		c.check(okDefault, "lz.ParseJSON:default", pj.Pos(), "an unknown Type yields (nil, error)", "ParseJSON does not reject an unknown Type with a non-nil error")
+		// every return is (nil, non-nil error) or (the value the document was decoded into without error, nil)
+		bad := ""
+		nRet := 0
+		for _, b := range pj.Blocks {
+			r, ok := b.Instrs[len(b.Instrs)-1].(*ssa.Return)
+			if !ok || len(r.Results) != 2 {
+				continue
+			}
+			nRet++
+			if k, isNil := r.Results[0].(*ssa.Const); isNil && k.Value == nil {
+				if !c.nonNilError(fi, r.Results[1], b, map[ssa.Value]bool{}) {
+					bad = "the return at " + c.pos(r.Pos()) + " yields no configuration and an error that may be nil"
+				}
+				continue
+			}
+			if k, isNil := r.Results[1].(*ssa.Const); !isNil || k.Value != nil {
+				bad = "the return at " + c.pos(r.Pos()) + " yields a configuration together with an error that may be non-nil"
+				continue
+			}
+			mi, isMI := r.Results[0].(*ssa.MakeInterface)
+			if !isMI {
+				// table form: the value comes out of a lookup; its decoding is checked at the call below by type
+				continue
+			}
+			decoded := false
+			for _, cb := range pj.Blocks {
+				for _, in := range cb.Instrs {
+					call, isCall := in.(*ssa.Call)
+					if !isCall || call.Call.StaticCallee() == nil || call.Call.StaticCallee().Name() != "Unmarshal" || len(call.Call.Args) != 2 {
+						continue
+					}
+					if am, isAM := call.Call.Args[1].(*ssa.MakeInterface); !isAM || am.X != mi.X {
+						continue
+					}
+					for _, cd := range fi.condsAt(b) {
+						if isNilCmp(cd, call) == -1 {
+							decoded = true
+						}
+					}
+				}
+			}
+			if !decoded {
+				bad = "the configuration returned at " + c.pos(r.Pos()) + " is not known to have been decoded without error (no json.Unmarshal into it whose error is nil on this way)"
+			}
+		}
+		c.check(bad == "" && nRet > 0, "lz.ParseJSON:returns", pj.Pos(), "every return is (nil, error ≠ nil) or (the value decoded without error, nil)",
+			"ParseJSON: "+bad+": with the error test turned round a valid document yields (nil, nil) and a broken one a half-filled configuration without an error")
 	}
 	seen := map[string]string{}
 	var unmarshalHelper, marshalHelper *ssa.Function
@@ -596,6 +643,71 @@ func ruleReflectNames(c *Ctx) {
 						}
 					}
 					c.check(okArg, key, call.Pos(), "setIVal(v, \""+name+"\", …) passes the field of that name", "config field \""+name+"\" is set from a differently named field")
+				}
+			}
+		}
+		// the helper moves EVERY integer field of the partial configuration it returns / receives: a field that is
+		// not read stays zero behind the parser's back, a field that is not written back is missing in the
+		// configuration the parser reports (the defaults that were applied to it never reach the caller's value)
+		var S *types.Named
+		if h.Getter {
+			for i := 0; i < fn.Signature.Results().Len(); i++ {
+				if nt, ok := fn.Signature.Results().At(i).Type().(*types.Named); ok && S == nil {
+					if _, isS := nt.Underlying().(*types.Struct); isS && nt.Obj().Pkg() != nil && nt.Obj().Pkg().Path() == lzPath {
+						S = nt
+					}
+				}
+			}
+		} else {
+			for i := 0; i < fn.Signature.Params().Len(); i++ {
+				if nt, ok := fn.Signature.Params().At(i).Type().(*types.Named); ok {
+					if _, isS := nt.Underlying().(*types.Struct); isS && nt.Obj().Pkg() != nil && nt.Obj().Pkg().Path() == lzPath {
+						S = nt
+					}
+				}
+			}
+		}
+		if S != nil {
+			if st, ok := S.Underlying().(*types.Struct); ok {
+				moved := map[string]bool{}
+				for _, nm := range h.Names {
+					moved[nm] = true
+					moved[strings.TrimRight(nm, "0123456789")] = true
+				}
+				var missing []string
+				nInt := 0
+				for i := 0; i < st.NumFields(); i++ {
+					if bt, isB := st.Field(i).Type().Underlying().(*types.Basic); isB && bt.Kind() == types.Int {
+						nInt++
+						if !moved[st.Field(i).Name()] {
+							missing = append(missing, st.Field(i).Name())
+						}
+					}
+					// a nested partial configuration H<k> with integer fields F is moved under the names F<k>
+					if inner, isS := st.Field(i).Type().Underlying().(*types.Struct); isS {
+						fname := st.Field(i).Name()
+						digits := fname[len(strings.TrimRight(fname, "0123456789")):]
+						for j := 0; j < inner.NumFields(); j++ {
+							if bt, isB := inner.Field(j).Type().Underlying().(*types.Basic); isB && bt.Kind() == types.Int {
+								nInt++
+								want := inner.Field(j).Name() + digits
+								found := false
+								for _, nm := range h.Names {
+									if nm == want {
+										found = true
+									}
+								}
+								if !found {
+									missing = append(missing, fname+"."+inner.Field(j).Name())
+								}
+							}
+						}
+					}
+				}
+				if nInt > 0 {
+					verb := map[bool]string{true: "reads", false: "writes back"}[h.Getter]
+					c.check(len(missing) == 0, fmt.Sprintf("%s:covers-%s", fnName(fn), S.Obj().Name()), fn.Pos(), fmt.Sprintf("%s %s all %d integer fields of %s", fn.Name(), verb, nInt, S.Obj().Name()),
+						fmt.Sprintf("%s does not %s the field(s) %v of %s: the parser and the configuration it reports disagree on them (a default applied to the partial configuration never reaches the parser configuration, or the buffer is set up from a zero)", fn.Name(), map[bool]string{true: "read", false: "write back"}[h.Getter], missing, S.Obj().Name()))
 				}
 			}
 		}
